@@ -106,7 +106,7 @@ fn main() {
 
     let nostd = ctx.variant != "std";
     let max_segs = if ctx.quick() || nostd { 2 } else { 3 };
-    let routing_depth = if ctx.quick() { 3 } else { 4 };
+    let routing_depth = if ctx.quick() { 3 } else { 6 };
     let mut cases = vec![];
     for m in [M::Both, M::Plain] {
         for form in [EntryForm::Some, EntryForm::Each, EntryForm::Next, EntryForm::Stub] {
